@@ -128,6 +128,40 @@ def signature(msg):
     return "inv:%s@%s" % (m.group(1) if m else "?", at.group(1) if at else "")
 
 
+def proof_stage():
+    """lake build + audit restricted to the import closure of the C09 property file (GateryModel/C09/* and the property file itself;
+    they import nothing else), so that other properties' work in progress cannot make this check fail"""
+    info = {"theorems": {}, "lean_ok": False, "failed": []}
+    ok, log = vlib.lake_build([PROP_MODULE, "gv_c09"])
+    info["lean_ok"] = ok
+    if not ok:
+        errs = [l for l in log.splitlines() if "error" in l][:20]
+        info["failed"].append("lake build: " + " | ".join(errs))
+        info["build_log_tail"] = log[-3000:]
+        return info
+    closure = [PROP_FILE, os.path.join("GateryModel", "C09")]
+    for f in [PROP_FILE] + [os.path.join("GateryModel", "C09", x) for x in os.listdir(os.path.join(vlib.LEAN, "GateryModel", "C09"))]:
+        for l in open(os.path.join(vlib.LEAN, f)):
+            m = re.match(r"\s*import\s+(\S+)", l)
+            if m and not m.group(1).startswith("GateryModel.C09."):
+                info["failed"].append("%s imports %s (outside the audited closure)" % (f, m.group(1)))
+    hits, files = vlib.audit_sources(closure)
+    if hits:
+        info["failed"].append("forbidden tokens: " + "; ".join(sorted(set(hits))))
+    thms = vlib.property_theorems(PROP_FILE)
+    ax, log = vlib.print_axioms(PROP_MODULE, thms)
+    if ax is None:
+        info["failed"].append("#print axioms failed: " + log[-1500:])
+    else:
+        info["theorems"] = ax
+        for t, a in ax.items():
+            bad = [x for x in a if x not in vlib.ALLOWED_AXIOMS]
+            if bad:
+                info["failed"].append("theorem %s uses axioms %s" % (t, bad))
+    info["files_audited"] = len(files)
+    return info
+
+
 def main():
     a = vlib.std_args(PROP)
     chk = vlib.Check(PROP, a.tier, a.seed)
@@ -137,7 +171,7 @@ def main():
         chk.violation("build", {"what": "gatery does not build from /repo's working tree", "log": log[-3000:]}, False)
         chk.finish("proof", {"obligations": 1, "discharged": 0, "checker_cmd": "lake build", "trusted_base": TRUSTED, "explanation": "build failure"})
     chk.log("gatery built")
-    info = vlib.lean_proof_stage(chk, [PROP_MODULE], PROP_FILE, PROP_MODULE, exe="gv_c09")
+    info = proof_stage()
     proof_broken = list(info["failed"])
     if proof_broken:
         chk.log("PROOF STAGE BROKEN: " + " || ".join(proof_broken)[:1500])
